@@ -454,7 +454,7 @@ struct C15 : vr::Driver {
         if (n.exists) rels.push_back(n.rel);
       std::map<std::string, Snap> first;
       for (auto& rel : rels) {
-        auto cg = o->ctx_.addToCacheAndGet(Oomd::CgroupPath(world::cgfs(), rel));
+        auto cg = sim::curCtx->addToCacheAndGet(Oomd::CgroupPath(world::cgfs(), rel));
         if (!cg) {
           fail("missing-cgroup", "cgroup '" + rel + "' exists but the context cannot open it");
           return 0;
@@ -463,7 +463,7 @@ struct C15 : vr::Driver {
       }
       // absent cgroups are not in the context
       for (auto& n : t.nodes)
-        if (!n.exists && o->ctx_.addToCacheAndGet(Oomd::CgroupPath(world::cgfs(), n.rel))) fail("ghost-cgroup", n.rel + " was removed but is still served");
+        if (!n.exists && sim::curCtx->addToCacheAndGet(Oomd::CgroupPath(world::cgfs(), n.rel))) fail("ghost-cgroup", n.rel + " was removed but is still served");
       // --- compare with the reference
       for (auto& rel : rels) {
         const Snap& s = first[rel];
@@ -631,7 +631,7 @@ struct C15 : vr::Driver {
         world::setFile(sc.mutateRel, "memory.swap.current", "54321\n");
         world::setMemStatKey(sc.mutateRel, "pgscan", 999999);
         for (auto& rel : rels) {
-          auto cg = o->ctx_.addToCacheAndGet(Oomd::CgroupPath(world::cgfs(), rel));
+          auto cg = sim::curCtx->addToCacheAndGet(Oomd::CgroupPath(world::cgfs(), rel));
           if (!cg) continue;
           Snap again = snapshot(cg->get());
           for (auto& kv : again)
